@@ -75,6 +75,9 @@ Inductive case :=
 | CScopePrint (s : scope) (ans : str)
 | CFoundUrl (d : found) (ans : str)                                 (* FoundDependency::make_url -> MavenCoord::make_url *)
 | CCoordGav (g a v : str) (ans : coord)                             (* MavenCoord::from_group_artifact_version *)
+| CSnapshot (v : str) (ans : str)
+    (* to_snapshot_version / MavenCoord::base_version: the version directory cut out of make_url's answer for a coordinate
+       with empty group and artifact served by the repository "R" *)
 | CAcyclic (rs : list resolver) (fs : files) (ranks : list (str * N)).
     (* a generated acyclic universe with the ranks of its documents: the hypothesis of fuel_suffices holds *)
 
@@ -94,6 +97,7 @@ Definition check (c : case) : bool :=
   | CScopePrint s ans => str_eqb (print_scope s) ans
   | CFoundUrl d ans => str_eqb (make_url (f_resolver d) (f_coord d)) ans
   | CCoordGav g a v ans => coord_eqb (from_group_artifact_version g a v) ans
+  | CSnapshot v ans => str_eqb (to_snapshot_version v) ans
   | CAcyclic rs fs ranks => acyclic_check fs rs (map (fun kv => (fst kv, N.to_nat (snd kv))) ranks)
   end.
 
